@@ -145,6 +145,15 @@ def oneshot_good(stmt, idents, starts, ends):
     return stmt.copy(loops=list(zip(idents, starts, ends))), sorted(zip(idents, starts))
 
 
+def salted_bad(name, key):
+    return "%s_%04x" % (name, hash(key) & 0xffff)
+
+
+def salted_good(name, key, table):
+    table[hash(key)] = name
+    return "%s_%d" % (name, len(table))
+
+
 def mutate_bad(statement):
     loops = statement.loops
     loops.reverse()
@@ -222,7 +231,10 @@ def _shared(f):
                 and len(x.args) == 2 and _mutable_value(x.args[1]):
             out.append((x, f"{norm(x, 50)}: every key gets the same {type(x.args[1]).__name__.lower()} "
                            f"object"))
-        if isinstance(x, ast.Assign) and len(x.targets) >= 2 and _mutable_value(x.value):
+        if isinstance(x, ast.Assign) and len(x.targets) >= 2 and _mutable_value(x.value) \
+                and all(isinstance(t, ast.Name) for t in x.targets):
+            # (`local = self.attr = {}` is the usual way of keeping a handle on a new
+            # attribute and is left alone: only several plain names are reported)
             out.append((x, f"{norm(x, 50)}: the names are bound to one and the same object"))
         if isinstance(x, ast.BinOp) and isinstance(x.op, ast.Mult):
             for side in (x.left, x.right):
@@ -353,6 +365,26 @@ def _oneshot(f):
                 if isinstance(t, ast.Attribute) and isinstance(t.value, ast.Name) and t.value.id == "self":
                     out.append((x, f"{norm(x, 50)}: an iterator that is exhausted by its first "
                                    f"traversal is kept on the object"))
+    return out
+
+
+def _salted(f):
+    """hash() of a str is salted per process, id() is an address: neither may end
+    up in text."""
+    out = []
+    for x in ast.walk(f.node):
+        textual = isinstance(x, ast.JoinedStr) or (
+            isinstance(x, ast.BinOp) and isinstance(x.op, ast.Mod)
+            and isinstance(x.left, ast.Constant) and isinstance(x.left.value, str)) or (
+            isinstance(x, ast.Call) and isinstance(x.func, ast.Attribute) and x.func.attr == "format") or (
+            isinstance(x, ast.Call) and isinstance(x.func, ast.Name) and x.func.id in ("str", "repr", "hex"))
+        if not textual:
+            continue
+        for y in ast.walk(x):
+            if isinstance(y, ast.Call) and isinstance(y.func, ast.Name) and y.func.id in ("hash", "id") \
+                    and y is not x:
+                out.append((y, f"{norm(x, 50)}: {y.func.id}() differs from process to process and is "
+                               f"put into text"))
     return out
 
 
@@ -512,6 +544,7 @@ LINTS = [
     ("shared", _shared, True),
     ("narrow", _narrow, True),
     ("oneshot", _oneshot, True),
+    ("salted", _salted, True),
     ("mutate", _mutate, False),     # only for modules that are handed a description
 ]
 
@@ -534,7 +567,7 @@ def lints(run, P, prop, extra_files=()):
              "a loop that is only computed in another loop; parallel sequences ordered "
              "alike; no loop variable used in a later loop; no identity comparison of values; data "
              "split by separator; union, not 'or', of variable sets; no word handed to "
-             "strip(); no one-shot iterator kept as a field; no attribute that the class of a narrowed value lacks; no one mutable object as the value of many keys; no "
+             "strip(); no hash() / id() in text; no one-shot iterator kept as a field; no attribute that the class of a narrowed value lacks; no one mutable object as the value of many keys; no "
              "argument passed under another parameter's name; no in-place change of a "
              "description handed in", minimum=3)
     files = sorted(set(anchor_files(prop)) | set(extra_files))
